@@ -691,8 +691,13 @@ impl<Aux> Vm<'_, Aux> {
                                 "Input must be non-negative".to_string(),
                             ));
                         }
-                        let key = table.nth_key(i as usize);
-                        let value = table.get(&key).copied().unwrap_or(Value::Nil);
+                        // a row past the end is (nil, nil), whatever is stored under the key nil
+                        let (key, value) = if (i as usize) < table.len() {
+                            let key = table.nth_key(i as usize);
+                            (key, table.get(&key).copied().unwrap_or(Value::Nil))
+                        } else {
+                            (Value::Nil, Value::Nil)
+                        };
 
                         debug!(
                             i = i,
